@@ -290,6 +290,15 @@ def _closure_returns_param(binc, cid):
     if tr.origin and tr.origin[0] == "agg" and tr.origin[1]["rv"].get("variant") == "Err" and tr.origin[1]["rv"]["ops"]:
         t2 = trace(cb, tr.origin[1]["rv"]["ops"][0])
         return t2.origin == ("arg", 2) and all(s_[0] == "use" for s_ in t2.steps)
+    # `|err| check(Err(err))`: the same, handed through a helper that gives its argument back
+    if tr.origin and tr.origin[0] == "call" and (fn_of(tr.origin[2]) or {}).get("local"):
+        rets = cb.return_blocks()
+        csup = Super(binc, cb, depth=2)
+        if rets:
+            td = strace_deep(csup, ((), rets[0]), {"k": "copy", "p": {"l": 0, "pr": []}})
+            if td.origin and td.origin[0] == "agg" and not td.origin_node[0] and td.origin[1]["rv"].get("variant") == "Err" and td.origin[1]["rv"]["ops"] and all(s_[0] in ("use", "enter_caller", "enter_callee", "ref", "deref") for s_ in td.steps):
+                t2 = trace(cb, td.origin[1]["rv"]["ops"][0])
+                return t2.origin == ("arg", 2) and all(s_[0] == "use" for s_ in t2.steps)
     return False
 
 
@@ -581,6 +590,11 @@ def r16_1(ctx):
             ktr = strace_deep(sup, kt.kind_node, kt.kind_call["args"][0], extra=_RESULT_VIEWS)
             if ktr.origin and ktr.origin[0] == "call" and ktr.origin[2] is it_ and any(s_[0] == "downcast" and s_[1] == "Err" for s_ in ktr.steps):
                 examined = True
+                # when walking back from the return value found no check function (the result went through a closure run
+                # by `or_else` on the error, say), it is the function the test sits in
+                frames = kt.kind_node[0]
+                if not chk and frames and frames[-1][2] in ctx.bin.by_id and _check_like(ctx.bin, ctx.bin.by_id[frames[-1][2]]):
+                    chk = [frames[-1][2]]
         returned = bool(rets) and _derives_unchanged(ctx.bin, sup, ((), rets[0]), {"k": "copy", "p": {"l": 0, "pr": []}}, it_)
         if not returned:
             # `check(inner.m(..))?; ..; Ok(v)`: the same result taken apart by `?` and put together again
